@@ -60,5 +60,69 @@ theorem adv_rU32 {r r' : Rd} {v : Nat} (h : r.rU32 = some (v, r')) :
     Adv r r' ∧ r'.cnt = r.cnt + 4 := by
   have := rU32_tot h; simp only [Rd.tot] at this; exact ⟨⟨this.1, by omega⟩, this.2⟩
 
+/-! ## `Drops`: the reader is a suffix of what it was, at its own offset
+
+`Adv` only accounts for lengths.  The linear allocation bound (C02, finding K4) has to name the template
+records a datagram carries by their offset, so it needs to know *which* octets are left: `Drops r r'` says
+that `r'` is `r` with `m` octets removed from the front and the count advanced by the same `m`. -/
+
+def Drops (r r' : Rd) : Prop := ∃ m, m ≤ r.rem.length ∧ r' = ⟨r.rem.drop m, r.cnt + m⟩
+
+theorem Drops.refl (r : Rd) : Drops r r := ⟨0, Nat.zero_le _, by simp⟩
+
+theorem Drops.trans {a b c : Rd} (h1 : Drops a b) (h2 : Drops b c) : Drops a c := by
+  obtain ⟨m, hm, rfl⟩ := h1
+  obtain ⟨n, hn, rfl⟩ := h2
+  simp only [List.length_drop] at hn
+  exact ⟨m + n, by omega, by simp [List.drop_drop, Nat.add_assoc]⟩
+
+theorem Drops.adv {r r' : Rd} (h : Drops r r') : Adv r r' := by
+  obtain ⟨m, hm, rfl⟩ := h
+  refine ⟨?_, ?_⟩
+  · simp only [List.length_drop]; omega
+  · simp only; omega
+
+theorem Drops.cnt_le {r r' : Rd} (h : Drops r r') : r.cnt ≤ r'.cnt := h.adv.2
+
+theorem drops_readN {r r' : Rd} {n : Nat} {b : Bytes} (h : r.readN n = some (b, r')) : Drops r r' := by
+  obtain ⟨h1, _, h3⟩ := readN_some h
+  exact ⟨n, h1, h3⟩
+
+theorem drops_rU8 {r r' : Rd} {v : Nat} (h : r.rU8 = some (v, r')) : Drops r r' := by
+  simp only [Rd.rU8, Option.map_eq_some_iff] at h
+  obtain ⟨⟨b, r1⟩, h1, h2⟩ := h
+  simp at h2; obtain ⟨_, rfl⟩ := h2
+  exact drops_readN h1
+
+theorem drops_rU16 {r r' : Rd} {v : Nat} (h : r.rU16 = some (v, r')) : Drops r r' := by
+  simp only [Rd.rU16, Option.map_eq_some_iff] at h
+  obtain ⟨⟨b, r1⟩, h1, h2⟩ := h
+  simp at h2; obtain ⟨_, rfl⟩ := h2
+  exact drops_readN h1
+
+theorem drops_rU32 {r r' : Rd} {v : Nat} (h : r.rU32 = some (v, r')) : Drops r r' := by
+  simp only [Rd.rU32, Option.map_eq_some_iff] at h
+  obtain ⟨⟨b, r1⟩, h1, h2⟩ := h
+  simp at h2; obtain ⟨_, rfl⟩ := h2
+  exact drops_readN h1
+
+/-- `r` is a reader over the datagram `bs`: what is left is the suffix of `bs` at the reader's own offset -/
+def Sfx (bs : Bytes) (r : Rd) : Prop := r.cnt ≤ bs.length ∧ r.rem = bs.drop r.cnt
+
+theorem Sfx.init (bs : Bytes) : Sfx bs ⟨bs, 0⟩ := ⟨Nat.zero_le _, by simp⟩
+
+theorem Sfx.drops {bs : Bytes} {r r' : Rd} (h : Sfx bs r) (hd : Drops r r') : Sfx bs r' := by
+  obtain ⟨m, hm, rfl⟩ := hd
+  obtain ⟨h1, h2⟩ := h
+  rw [h2, List.length_drop] at hm
+  refine ⟨by simp only; omega, ?_⟩
+  simp only; rw [h2, List.drop_drop]
+
+/-- a reader over `bs` is determined by its offset -/
+theorem Sfx.eq {bs : Bytes} {r : Rd} (h : Sfx bs r) : r = ⟨bs.drop r.cnt, r.cnt⟩ := by
+  obtain ⟨rem, cnt⟩ := r
+  simp only [Sfx] at h
+  simp only [Rd.mk.injEq, and_true]
+  exact h.2
 
 end Vflow
